@@ -91,7 +91,7 @@ func run(r *vk.Run) {
 	r.Require("projections-compared", pick(200000, 2000000))
 	r.Require("projections-compared/pull-events", pick(20000, 500000))
 	r.Require("mask/parent+child", 500)
-	r.Require("mask/through-repeated-message", 500)
+	r.Require("mask/contains-path-through-repeated-message", 500)
 	r.Require("mask/nil-mask", 20)
 	r.Require("mask/empty-mask", 20)
 	r.Require("validate/accepted-valid", 1000)
@@ -344,8 +344,8 @@ func (m *mon) runCase(phase string, in *input, withPull bool) {
 	}
 	r.Count("cases/"+phase, 1)
 	r.Count("mask/"+short, 1)
-	if strings.HasPrefix(cls, "through-repeated-message:") {
-		r.Count("mask/through-repeated-message", 1)
+	if worstClass(in.md, in.paths) == vk.PathThroughRepMsg {
+		r.Count("mask/contains-path-through-repeated-message", 1)
 	}
 	if strings.HasSuffix(cls, "parent+child") {
 		r.Count("mask/parent+child", 1)
